@@ -57,6 +57,8 @@ pub enum Stmt {
     AwaitChain { first: Leaf, stages: Vec<Stage> },
     /// hold a drop-counted token until the task's future is dropped
     HoldToken,
+    /// abort the command registered under this handle (e.g. the task's own command: a watchdog)
+    AbortCmd(u32),
 }
 
 #[derive(Clone, Debug, PartialEq, Eq, Serialize, Deserialize, Hash)]
@@ -103,7 +105,7 @@ impl Cmd {
                 r.set(true);
             }
         }, &mut |s| {
-            if matches!(s, Stmt::SelectFirst(_) | Stmt::AbortTask(_)) {
+            if matches!(s, Stmt::SelectFirst(_) | Stmt::AbortTask(_) | Stmt::AbortCmd(_)) {
                 r.set(true);
             }
         });
